@@ -101,8 +101,13 @@ func (cfg *Config) NewParser(parentLogger logger.Logger, allocator *base.LogAllo
 
 // VerifyConfig checks configuration
 func (cfg *Config) VerifyConfig(schema base.LogSchema) error {
-	if _, _, err := net.SplitHostPort(cfg.Address); err != nil {
+	_, port, err := net.SplitHostPort(cfg.Address)
+	if err != nil {
 		return fmt.Errorf(".address has invalid format: %w", err)
+	}
+	// the same check net.Listen applies later: a number within 0-65535 or a known service name (no network access)
+	if _, err := net.LookupPort("tcp", port); err != nil {
+		return fmt.Errorf(".address has invalid port: %w", err)
 	}
 
 	if len(cfg.LevelMapping) == 0 {
@@ -125,6 +130,11 @@ func (cfg *Config) VerifyConfig(schema base.LogSchema) error {
 	}
 
 	return bsupport.VerifyTransformConfigs(cfg.Extractions, schema, ".extractions")
+}
+
+// ListenAddress returns the configured address, for the duplicate check of the loader
+func (cfg *Config) ListenAddress() string {
+	return cfg.Address
 }
 
 func (in *input) Address() string {
